@@ -145,6 +145,26 @@ pub fn run(ctx: &Ctx, rep: &Report) {
     });
     let nreg = regs.lock().unwrap().len() as u64;
     rep.part("tail:all-2^24-addresses", 1 << 24, json!({"registered": nreg}));
+    // second pass in descending order, each call preceded by a call on an unrelated address: the lookup must be a
+    // function of its argument alone (no state carried between calls)
+    {
+        let by_addr: HashMap<u32, String> = regs.lock().unwrap().iter().map(|(r, a)| (*a, r.clone())).collect();
+        let diff = std::sync::atomic::AtomicU64::new(0);
+        par_ranges(ctx.threads, 1 << 24, 1 << 14, |lo, hi| {
+            for a in (lo..hi).rev() {
+                let a = a as u32;
+                let _ = guarded(|| tail(a ^ 0x00a5_a5a5));
+                let got = guarded(|| tail(a)).ok().flatten();
+                if got.as_ref() != by_addr.get(&a) {
+                    if diff.fetch_add(1, std::sync::atomic::Ordering::Relaxed) < 64 {
+                        rep.violation("tail:order-dependent", format!("tail({a:06x}) = {:?} in ascending order and {:?} when called in descending order after an unrelated address", by_addr.get(&a), got), json!({"kind":"addr-after","addr":a,"after":a ^ 0x00a5_a5a5}));
+                    }
+                }
+            }
+            rep.eval(2 * (hi - lo));
+        });
+        rep.part("tail:second pass, descending, interleaved", 1 << 25, json!({"different": diff.load(std::sync::atomic::Ordering::Relaxed)}));
+    }
     for (c, n) in per_country.lock().unwrap().iter() {
         rep.outcome(&format!("registered:{c}"), *n);
     }
@@ -204,6 +224,16 @@ pub fn replay(w: &Value, rep: &Report) {
             let (ra, rb) = (guarded(|| tail(a)).ok().flatten(), guarded(|| tail(b)).ok().flatten());
             if ra.is_some() && ra == rb && a != b {
                 rep.violation("tail:not-injective", format!("tail({a:06x}) = tail({b:06x}) = {}", ra.unwrap()), w.clone());
+            }
+        }
+        Some("addr-after") => {
+            let (a, b) = (w["addr"].as_u64().unwrap() as u32, w["after"].as_u64().unwrap() as u32);
+            let g = a;
+            let fresh = std::thread::spawn(move || guarded(|| tail(g)).ok().flatten()).join().unwrap_or(None);
+            let _ = guarded(|| tail(b));
+            let got = guarded(|| tail(a)).ok().flatten();
+            if got != fresh {
+                rep.violation("tail:order-dependent", format!("tail({a:06x}) = {fresh:?} on a fresh thread and {got:?} right after tail({b:06x})"), w.clone());
             }
         }
         _ => panic!("bad witness"),
